@@ -1220,7 +1220,7 @@ impl<D: TextDecorator> SubRenderer<D> {
     }
 
     /// Wrap links to width
-    pub fn fmt_links(&mut self, mut links: Vec<TaggedLine<D::Annotation>>) {
+    pub fn fmt_links(&mut self, mut links: Vec<TaggedLine<D::Annotation>>) -> Result<()> {
         for line in links.drain(..) {
             /* Hard wrap */
             let mut pos = 0;
@@ -1237,6 +1237,10 @@ impl<D: TextDecorator> SubRenderer<D> {
                     let mut buf = String::new();
                     for c in s.chars() {
                         let c_width = UnicodeWidthChar::width(c).unwrap_or(0);
+                        if c_width > self.width && !self.options.allow_width_overflow {
+                            // A character wider than the whole line can't be wrapped.
+                            return Err(TooNarrow);
+                        }
                         if pos + c_width > self.width {
                             if !buf.is_empty() {
                                 wrapped_line.push_str(TaggedString {
@@ -1264,6 +1268,7 @@ impl<D: TextDecorator> SubRenderer<D> {
             }
             self.add_line(RenderLine::Text(wrapped_line));
         }
+        Ok(())
     }
 
     /// Returns a `Vec` of `TaggedLine`s with the rendered text.
